@@ -1543,3 +1543,103 @@ def c20_q(ctx):
 def c20_dtype(ctx):
     from .base import inherited_dtype_obligation
     inherited_dtype_obligation(ctx, ['elfi.methods.inference.bsl', 'elfi.methods.bsl.pdf_methods', 'elfi.methods.inference.parameter_inference'])
+
+
+_C20_MISSPEC = [
+    (_BSLC + '._init_round', "store:self.gamma_sampler_state['gamma']", [('self.is_misspec', True)],
+     'the adjustment parameter is drawn (and kept for the next draw) only by the misspecified '
+     'variant'),
+    (_BSLC + '._init_round', "store:self.gamma_sampler_state['loglik']", [('self.is_misspec', True)],
+     'the sampler keeps the likelihood at the adjustment parameter it returned'),
+    (_BSLC + '._process_simulated', "store:self.gamma_sampler_state['loglik']",
+     [('self.is_misspec', True)],
+     'an accepted state hands its likelihood to the adjustment-parameter sampler'),
+    (_BSLC + '._process_simulated', "store:self.gamma_sampler_state['sample_mean']",
+     [('self.is_misspec', True)],
+     'an accepted state hands the mean of its simulated summaries to the sampler'),
+    (_BSLC + '._process_simulated', "store:self.gamma_sampler_state['sample_cov']",
+     [('self.is_misspec', True)],
+     'an accepted state hands the covariance of its simulated summaries to the sampler'),
+    (_BSLC + '._process_simulated', 'self.likelihood(_, _, gamma=_)', [('self.is_misspec', True)],
+     'the adjusted likelihood receives the current adjustment parameter'),
+]
+
+
+def _is_clip(t):
+    """t = (K if K < V else V) or (K if V < K else V), possibly nested: -> innermost V, else None.
+    Conditional terms are canonical (positive test), so a negated guard shows as swapped arms."""
+    seen = False
+    while t[0] == 'ifexp':
+        test, a, b = t[1], t[2], t[3]
+        if not (test[0] == 'cmp' and test[1] in ('<', '<=')):
+            return None
+        lo, hi = test[2], test[3]
+        k = a if a[0] in ('const', 'unary') else None
+        if k is None:
+            return None
+        kv = k[1] if k[0] == 'const' else (-k[2][1] if k[1] == '-' and k[2][0] == 'const'
+                                           else None)
+        if not isinstance(kv, (int, float)):
+            return None
+        if lo == k and hi == b and kv > 0:      # K < V -> K  (upper clip at a positive bound)
+            t = b
+        elif hi == k and lo == b and kv < 0:    # V < K -> K  (lower clip at a negative bound)
+            t = b
+        else:
+            return None
+        seen = True
+    return t if seen else None
+
+
+@obligation('C20-s', 'T11 T8', 'the misspecification-adjusted step keeps its sampler state only in '
+            'the misspecified variant; every stored log posterior is log likelihood + log prior of '
+            'the same chain index; the overflow guard of the ratio is a clip', floor=9,
+            necessary='log posterior = log likelihood + log prior is what the acceptance ratio '
+                      'compares; a guard that replaces values inside the range (negated test) '
+                      'makes every proposal accepted; the adjustment-parameter sampler conditions '
+                      'on the likelihood, mean and covariance of the current state')
+def c20_s(ctx):
+    from .base import check_guard_table
+    check_guard_table(ctx, _C20_MISSPEC)
+    cls = ctx.cls(_BSLC)
+    p_slot = pattern("self.state['logposterior'][_i]")
+    n = 0
+    for m in cls.methods.values():
+        ex = ctx.ex(m)
+        for (s, tg, k) in ctx.stores(m, "self.state['logposterior'][_]"):
+            if not isinstance(s, ast.Assign):
+                continue
+            bt = match(ex.term(tg), p_slot)
+            v = ex.term(s.value)
+            if bt is None or match(v, pattern("self.state['logposterior'][_]")) is not None:
+                continue          # carried forward from the previous step (C20-q)
+            n += 1
+            want = ('sub', ('sub', ('attr', ('param', 'self'), 'state'), ('const', 'logprior')),
+                    bt['i'])
+            ok = v[0] == 'binop' and v[1] == '+' and want in (v[2], v[3])
+            ctx.check(ok, m, 'stored log posterior = log likelihood + log prior of the same index',
+                      "state['logposterior'][i] = loglik + state['logprior'][i]",
+                      '`{}` does not store log likelihood + log prior of the same chain index'
+                      .format(src(s)[:75]), fn=m, node=s)
+    if n < 2:
+        ctx.undecided('expected the two computed stores of the log posterior, found {}'.format(n))
+    # the overflow guard
+    for m in cls.methods.values():
+        ex = ctx.ex(m)
+        for r in returns(m):
+            if r.value is None:
+                continue
+            t = ex.term(r.value)
+            mm = match(t, pattern('np.exp(_v)'))
+            if mm is None or not contains(mm['v'], "self.state['logposterior'][_]"):
+                continue
+            v = mm['v']
+            if v[0] != 'ifexp':
+                ctx.ok(m, 'ratio returned without an overflow guard', 'np.exp(log ratio)', fn=m,
+                       node=r)
+                continue
+            inner = _is_clip(v)
+            ctx.check(inner is not None and inner[0] != 'ifexp', m,
+                      'overflow guard is a clip', 'K if res > K else res; -K if res < -K else res',
+                      'the guard around the log ratio is not a clip (a value inside the range is '
+                      'replaced, or the arms are swapped): `{}`'.format(show(v)[:80]), fn=m, node=r)
